@@ -265,10 +265,13 @@ func (sp *Specs) loadFile(path string) error {
 			case "hint":
 				// "hint when <var>: E" -- proved, then assumed, right after <var> is bound
 				f := strings.Fields(rest)
-				if len(f) < 3 || f[0] != "when" {
-					return fail("hint when <var>: E")
+				if len(f) < 3 || (f[0] != "when" && f[0] != "before") {
+					return fail("hint when <var>: E  |  hint before <callee>: E")
 				}
 				v := strings.TrimSuffix(f[1], ":")
+				if f[0] == "before" {
+					v = "before:" + v // proved, then assumed, right before a call to <callee>
+				}
 				src := strings.TrimSpace(rest[strings.Index(rest, f[1])+len(f[1]):])
 				hc, err := parseClause("hint", src, path, rl.line)
 				if err != nil {
